@@ -2,6 +2,7 @@
 // Oracle: memcmp. Kernel level: the length x first-mismatch grid (len 0..130) is enumerated completely by case
 // index, operands placed independently at heap-exact / page-end / in-page offsets (guard pages). API level: objects
 // whose keys are such ranges, FindMember by view and by pointer+length, with and without the lookup map.
+#include <algorithm>
 #include <cstring>
 #include <memory>
 #include <set>
@@ -122,6 +123,82 @@ static std::string judge_api(const std::vector<std::string>& keys, const std::st
   return "";
 }
 
+// Probe ranges that ALIAS a stored member name: the probe starts at the very address of some member's name and has another
+// length (a prefix of the stored bytes), and - with borrowed keys that are slices of one caller buffer - a longer one. Equality
+// of keys is equality of (length, bytes), wherever the two ranges lie, also when they start at the same address.
+template <class DocT>
+static std::string judge_alias(const std::vector<std::string>& keys, bool with_map) {
+  char b[240];
+  auto expect = [&](const std::vector<std::string>& ks, const char* p, size_t n) {
+    for (size_t i = 0; i < ks.size(); i++)
+      if (ks[i].size() == n && memcmp(ks[i].data(), p, n) == 0) return (long)i;
+    return -1L;
+  };
+  auto same_key = [&](const std::vector<std::string>& ks, long got, const char* p, size_t n) {
+    return got >= 0 && ks[(size_t)got].size() == n && memcmp(ks[(size_t)got].data(), p, n) == 0;
+  };
+  {  // (a) copied keys: prefixes of each stored name, probed at the stored name's own address
+    DocT doc;
+    doc.SetObject();
+    auto& alloc = doc.GetAllocator();
+    for (size_t i = 0; i < keys.size(); i++) {
+      typename DocT::NodeType v;
+      v.SetUint64(i);
+      doc.AddMember(StringView(keys[i].data(), keys[i].size()), std::move(v), alloc, true);
+    }
+    if (with_map) doc.CreateMap(alloc);
+    for (auto it = doc.MemberBegin(); it != doc.MemberEnd(); ++it) {
+      StringView nm = it->name.GetStringView();
+      for (size_t n : {(size_t)0, nm.size() / 2, nm.size() ? nm.size() - 1 : 0, nm.size()}) {
+        long want = expect(keys, nm.data(), n);
+        auto f1 = doc.FindMember(StringView(nm.data(), n));
+        auto f2 = doc.FindMember(nm.data(), n);
+        long g1 = f1 == doc.MemberEnd() ? -1 : (long)(f1 - doc.MemberBegin()), g2 = f2 == doc.MemberEnd() ? -1 : (long)(f2 - doc.MemberBegin());
+        bool ok1 = want < 0 ? g1 < 0 : (with_map ? same_key(keys, g1, nm.data(), n) : g1 == want);
+        bool ok2 = want < 0 ? g2 < 0 : (with_map ? same_key(keys, g2, nm.data(), n) : g2 == want);
+        if (!ok1 || !ok2) {
+          snprintf(b, sizeof b, "probe aliasing the stored name of member %ld with length %zu of %zu: FindMember(view)=%ld FindMember(ptr,len)=%ld expected %ld (map=%d)",
+                   (long)(it - doc.MemberBegin()), n, nm.size(), g1, g2, want, (int)with_map);
+          return b;
+        }
+      }
+    }
+  }
+  {  // (b) borrowed keys (copyKey=false) that are slices of ONE buffer starting at the same address
+    static char shared[600];
+    const std::string& base = keys[0];
+    size_t L = std::min<size_t>(base.size(), 500);
+    memcpy(shared, base.data(), L);
+    for (size_t i = L; i < L + 8; i++) shared[i] = (char)('0' + i % 10);
+    std::vector<size_t> lens;
+    for (size_t n : {L, L / 2, L + 3, (size_t)1, L + 8})
+      if (n <= L + 8 && std::find(lens.begin(), lens.end(), n) == lens.end()) lens.push_back(n);
+    std::vector<std::string> ks;
+    DocT doc;
+    doc.SetObject();
+    auto& alloc = doc.GetAllocator();
+    for (size_t i = 0; i < lens.size(); i++) {
+      typename DocT::NodeType v;
+      v.SetUint64(i);
+      doc.AddMember(StringView(shared, lens[i]), std::move(v), alloc, false);
+      ks.emplace_back(shared, lens[i]);
+    }
+    if (with_map) doc.CreateMap(alloc);
+    for (size_t n = 0; n <= L + 8; n++) {
+      long want = expect(ks, shared, n);
+      auto f1 = doc.FindMember(StringView(shared, n));
+      auto f2 = doc.FindMember(shared, n);
+      long g1 = f1 == doc.MemberEnd() ? -1 : (long)(f1 - doc.MemberBegin()), g2 = f2 == doc.MemberEnd() ? -1 : (long)(f2 - doc.MemberBegin());
+      if (g1 != want || g2 != want) {
+        snprintf(b, sizeof b, "borrowed keys sliced from one buffer, probe (same address, length %zu): FindMember(view)=%ld FindMember(ptr,len)=%ld expected %ld (map=%d)",
+                 n, g1, g2, want, (int)with_map);
+        return b;
+      }
+    }
+  }
+  return "";
+}
+
 static std::string variant(Src& s, const std::string& base) {
   std::string v = base;
   switch (s.weighted({3, 2, 2, 2, 1})) {
@@ -215,8 +292,13 @@ static void property(Src& s, Case& c) {
     for (auto& kx : keys) keyblob += std::to_string(kx.size()) + ":" + kx;
     c.note("keys", keyblob);
     c.note("map", with_map ? "1" : "0");
-    if (s.coin(1, 2)) m = judge_api<Document>(keys, x, with_map, pb, qb);
+    bool pooldoc = s.coin(1, 2);
+    if (pooldoc) m = judge_api<Document>(keys, x, with_map, pb, qb);
     else m = judge_api<FreeDoc>(keys, x, with_map, pb, qb);
+    if (m.empty() && s.coin(1, 3)) {
+      c.cls("api:aliasing-probes");
+      m = pooldoc ? judge_alias<Document>(keys, with_map) : judge_alias<FreeDoc>(keys, with_map);
+    }
   }
   if (!m.empty()) c.fail(m + " | len=" + std::to_string(len) + " mism=" + std::to_string(mism) + " A:" + pn[pa] + "/" + std::to_string(qa) + " B:" + pn[pb] + "/" + std::to_string(qb) + " x=" + printable(x, 80));
 }
@@ -246,6 +328,8 @@ static void direct(const Fields& f, Case& c) {
     keys = {*y};
   std::string m = judge_api<Document>(keys, *x, num("map", 0) != 0, (int)num("pb", 1), (size_t)num("qb", 0));
   if (m.empty()) m = judge_api<FreeDoc>(keys, *x, num("map", 0) != 0, (int)num("pb", 1), (size_t)num("qb", 0));
+  if (m.empty()) m = judge_alias<Document>(keys, num("map", 0) != 0);
+  if (m.empty()) m = judge_alias<FreeDoc>(keys, num("map", 0) != 0);
   if (!m.empty()) c.fail(m);
 }
 
